@@ -81,25 +81,32 @@ class WorkBudget:
 
     def __init__(self, budget, jumps=True):
         self.budget = budget
+        self.initial = budget
         self.jumps = jumps
         self.n = 0
+        self.fired = 0
 
     def __enter__(self):
         mon = sys.monitoring
         mon.use_tool_id(self.TOOL, "simverif-workbudget")
         ev = mon.events
 
+        def exceeded():
+            # keep counting: when several tasks spin, each of them has to be stopped in turn; the code that unwinds gets
+            # a tenth of the budget before the signal is raised again
+            self.fired += 1
+            self.budget = self.n + max(1000, self.initial // 10)
+            raise StepBudgetExceeded("work budget of %d function entries + jumps exceeded" % self.initial)
+
         def on_start(code, offset):
             self.n += 1
             if self.n > self.budget:
-                mon.set_events(self.TOOL, 0)
-                raise StepBudgetExceeded("work budget of %d function entries + jumps exceeded" % self.budget)
+                exceeded()
 
         def on_jump(code, offset, dest):
             self.n += 1
             if self.n > self.budget:
-                mon.set_events(self.TOOL, 0)
-                raise StepBudgetExceeded("work budget of %d function entries + jumps exceeded" % self.budget)
+                exceeded()
 
         mon.register_callback(self.TOOL, ev.PY_START, on_start)
         mon.register_callback(self.TOOL, ev.JUMP, on_jump)
